@@ -310,20 +310,74 @@ func runC05(e *Engine, r *Report, tier string) {
 						}
 					}
 					if delFirst != nil {
-						lost := ReachAvoiding(fn, delFirst, func(i ssa.Instruction) bool { _, ok := i.(*ssa.Return); return ok }, func(i ssa.Instruction) bool {
-							if i == appendStore {
-								return true
+						// is the error test of the delete: returns (isTest, successor index taken when the delete succeeded)
+						delErrTest := func(iff *ssa.If) (bool, int) {
+							bo, ok := iff.Cond.(*ssa.BinOp)
+							if !ok || !(isNilConst(bo.X) || isNilConst(bo.Y)) {
+								return false, 0
 							}
-							// the branch taken when the delete itself failed
-							if iff, ok := i.(*ssa.If); ok {
-								if bo, ok := iff.Cond.(*ssa.BinOp); ok && (isNilConst(bo.X) || isNilConst(bo.Y)) {
-									if v, ok := delFirst.(ssa.Value); ok && (bo.X == v || bo.Y == v) {
-										return true
+							v, ok := delFirst.(ssa.Value)
+							if !ok {
+								return false, 0
+							}
+							match := false
+							for _, side := range []ssa.Value{bo.X, bo.Y} {
+								if side == v {
+									match = true
+								}
+								if ld, ok := side.(*ssa.UnOp); ok && v.Referrers() != nil {
+									for _, ref := range *v.Referrers() {
+										if st, ok := ref.(*ssa.Store); ok && st.Addr == ld.X {
+											match = true
+										}
 									}
 								}
 							}
-							return false
-						})
+							if !match {
+								return false, 0
+							}
+							if bo.Op.String() == "!=" {
+								return true, 1 // err != nil: success continues on the false edge
+							}
+							return true, 0
+						}
+						var lost ssa.Instruction
+						seenBlk := map[*ssa.BasicBlock]bool{}
+						var walk func(b *ssa.BasicBlock, from int)
+						walk = func(b *ssa.BasicBlock, from int) {
+							if lost != nil {
+								return
+							}
+							for k := from; k < len(b.Instrs); k++ {
+								in := b.Instrs[k]
+								if in == appendStore {
+									return
+								}
+								switch t := in.(type) {
+								case *ssa.Return:
+									lost = t
+									return
+								case *ssa.Panic:
+									return
+								case *ssa.If:
+									if is, okSucc := delErrTest(t); is {
+										nb := b.Succs[okSucc]
+										if !seenBlk[nb] {
+											seenBlk[nb] = true
+											walk(nb, 0)
+										}
+										return
+									}
+								}
+							}
+							for _, nb := range b.Succs {
+								if !seenBlk[nb] {
+									seenBlk[nb] = true
+									walk(nb, 0)
+								}
+							}
+						}
+						walk(delFirst.Block(), instrIndex(delFirst)+1)
 						if lost == nil {
 							off = nil
 						} else {
